@@ -172,6 +172,11 @@ func (s *mainQueueScheduler) forward(sender string, seq uint64) {
 
 		s.remove(tx, seqHeap)
 	}
+
+	// The sender's first pending transaction may have become schedulable.
+	if tx, ok := seqHeap.peek(); ok && tx.seq == seq && !isPendingSchedule(tx) && s.isSchedulable(tx, seqHeap) {
+		s.maxHeap.push(tx)
+	}
 }
 
 // handleTxUsed removes the transaction with the given hash and forwards
